@@ -121,7 +121,7 @@ func urlsFor(r *core.Rand, t *rt.Table, n int) []string {
 func c17(ctx *core.Ctx) {
 	quietLogs()
 	ctx.Rule("tables on the fragment both matching engines support (nested literal roots, literal and {v} segments, Consumes/Produces, no conditions), both routers. For each URL u: S(u) = methods in {GET,POST,PUT,DELETE,PATCH,HEAD,LOCK,UNLOCK,FIND,PROPFIND,GE} whose probe on a filter-less twin is not 404/405. Oracle: every 405's Allow set == S(u) (also for OPTIONS and an unknown method); with OPTIONSFilter installed OPTIONS u gives Allow == Access-Control-Allow-Methods == S(u), runs no route function, and every other probe equals the twin's answer. Non-trivial = a URL with non-empty S(u); distinct by (router, |S(u)|, number of matching roots, trailing slash).")
-	ctx.Assume("OPTIONS itself is outside the compared universe (removed from both sides): the filter answers it by construction", "every 3rd table has explicit OPTIONS routes; every 3rd table has routes added/removed on registered WebServices between three probe passes")
+	ctx.Assume("OPTIONS itself is outside the compared universe (removed from both sides): the filter answers it by construction", "now and then a WebService whose five routes are registered from ONE reused RouteBuilder (method and path changed between the calls); every 3rd table has explicit OPTIONS routes; every 3rd table has routes added/removed on registered WebServices between three probe passes")
 	tables := ctx.N(1800, 80000)
 	perTable := ctx.N(25, 50)
 	if !ctx.Quick() {
@@ -155,6 +155,9 @@ func c17(ctx *core.Ctx) {
 		}
 		t := rt.GenTable(r, go17)
 		ctx.Case(ti, "router="+router+" table="+core.JSON(t))
+		if ti%50 == 7 || ti%50 == 30 {
+			c17BuilderReuse(ctx, ti, router, universe, ctx.Rand(ti, "builder-reuse"))
+		}
 		// every 3rd table: explicit OPTIONS routes; every 3rd: routes change between two probe passes
 		if ti%3 == 1 {
 			for i := range t.Svcs {
@@ -277,6 +280,43 @@ func c17(ctx *core.Ctx) {
 			}
 		}
 	}
+}
+
+// c17BuilderReuse: an application registers its routes from ONE RouteBuilder, changing method and path between the calls
+// (builders are mutable and ws.Route builds on the spot). Each route is then what the builder said at that moment: the
+// 405 Allow header and the OPTIONS filter's list follow the paths the routes were registered with.
+func c17BuilderReuse(ctx *core.Ctx, ti int, router string, universe []string, rr *core.Rand) {
+	lit := func(s string) rt.Seg { return rt.Seg{Kind: rt.Lit, Lit: s} }
+	v := func(n string) rt.Seg { return rt.Seg{Kind: rt.Var, Name: n} }
+	t := &rt.Table{Svcs: []rt.SvcSpec{{ID: 0, Root: rt.Tmpl{lit("shop")}, Routes: []rt.RouteSpec{
+		{ID: 9100, Method: "GET", Path: rt.Tmpl{lit("items")}},
+		{ID: 9101, Method: "POST", Path: rt.Tmpl{lit("items"), v("id")}},
+		{ID: 9102, Method: "DELETE", Path: rt.Tmpl{lit("stock")}},
+		{ID: 9103, Method: "PUT", Path: rt.Tmpl{lit("items")}},
+		{ID: 9104, Method: "PATCH", Path: rt.Tmpl{lit("stock"), v("bin"), lit("count")}},
+	}}}}
+	build := func(withFilter bool) *restful.Container {
+		c := restful.NewContainer()
+		if router == "jsr311" {
+			c.Router(restful.RouterJSR311{})
+		}
+		if withFilter {
+			c.Filter(c.OPTIONSFilter)
+		}
+		ws := new(restful.WebService).Path("/shop")
+		b := ws.GET("/items")
+		for i := range t.Svcs[0].Routes {
+			rs := &t.Svcs[0].Routes[i]
+			ws.Route(b.Method(rs.Method).Path(rs.Render()).To(rt.RouteFunc(rs.ID)).Operation(fmt.Sprint("r", rs.ID)).Metadata("rid", rs.ID))
+		}
+		c.Add(ws)
+		return c
+	}
+	saveCond, saveCors := c17CondTable, c17BehindCors
+	c17CondTable, c17BehindCors = false, false
+	c17Probe(ctx, ti, t, router, build(false), build(true), []string{"/shop/items", "/shop/items/7", "/shop/stock", "/shop/stock/b4/count", "/shop/items/", "/shop/stock/b4", "/shop"}, universe, rr, 0)
+	c17CondTable, c17BehindCors = saveCond, saveCors
+	ctx.Count("tables_registered_from_one_reused_builder", 1)
 }
 
 var c17CondTable, c17BehindCors bool
